@@ -15,6 +15,7 @@ stepping loops (`stepsOut`, `stepsIn`) plus the number of frames consumed before
 import RubatoProofs.Async.FixedIn
 import RubatoProofs.Async.FixedOut
 import RubatoProofs.Props.C12
+import RubatoProofs.Lemmas.FormulaTie
 
 set_option linter.unusedSectionVars false
 set_option linter.unusedVariables false
@@ -95,5 +96,19 @@ theorem fixedIn_ramp_spacing_false :
   refine ⟨by decide +kernel, by norm_num, ?_⟩
   have hT : ⌈1 / (1/14 : ℚ)⌉ = 14 := by decide +kernel
   rw [hT]; unfold FixedIn.Inv; norm_num
+
+end Rubato.C06
+
+namespace Rubato.C06
+open Rubato Rubato.Gen
+
+/-- tie G7 (loop control): the two functions of the hand model that walk the read position through a call —
+`finishIn` (fixed input: `while idx < end_idx`) and `finishOut` (fixed output: `chunk_size` steps) — ARE the same functions
+written with the regenerated Rust statements for `t_ratio`, `t_ratio_end`, `approximate_nbr_frames`, `t_ratio_increment`,
+`end_idx` and the `last_index` carried to the next call, for every arithmetic instance (`rfl`).  The spacing / monotonicity
+theorems of this file are about `stepsIn` / `stepsOut` driven by exactly these values. -/
+theorem loop_control_is_the_source_text {ρ σ : Type} [RNum ρ] [SNum ρ σ] (s : AState ρ σ) (mask : List Bool) (fuel : Nat) :
+    s.finishIn mask fuel = FormulaTie.finishInG s mask fuel ∧ s.finishOut mask = FormulaTie.finishOutG s mask :=
+  ⟨rfl, rfl⟩
 
 end Rubato.C06
